@@ -415,7 +415,13 @@ impl Gen<'_> {
                             f.value_name = Some(vn);
                         }
                     }
-                    vnames.push(f.value_name.clone().unwrap_or_else(|| fname.to_uppercase()));
+                    // (a default value name - the field name in upper case - may collide with an explicit one given earlier)
+                    let mut shown = f.value_name.clone().unwrap_or_else(|| fname.to_uppercase());
+                    if vnames.contains(&shown) {
+                        shown = format!("{}{}", shown, vnames.len());
+                        f.value_name = Some(shown.clone());
+                    }
+                    vnames.push(shown);
                     f.doc = self.doc(&format!("{} in {}", fname, name));
                     fnames.push(fname);
                     v.fields.push(f);
